@@ -73,6 +73,9 @@ def run_one(args):
         detail = "; ".join("%s:%s" % (p, " ".join(x.strip() for x in v[:2])[:230]) for p, (rc, v) in res.items() if rc != 0)
         if len(props) > 3:
             detail = "fired: " + ",".join(fired)
+        crashed = [p for p, (rc, v) in res.items() if v and v[0].startswith("CHECK CRASHED")]
+        if crashed:
+            return m["name"], "CRASHED", "check crashed (no verdict): %s %s" % (",".join(crashed), res[crashed[0]][1][0][-160:])
         return m["name"], "caught" if fired else "MISSED", detail
     finally:
         shutil.rmtree(d, ignore_errors=True)
@@ -128,6 +131,8 @@ def main():
         print("%-48s %-8s %s" % (name, st, detail))
     if out_json:
         json.dump([{"name": n, "status": st, "detail": d} for n, st, d in out], open(out_json, "w"), indent=1)
+    if any(o[1] == "CRASHED" for o in out):
+        print("CRASHED %d (a crashed check is neither silent nor a report: fix it)" % sum(1 for o in out if o[1] == "CRASHED"))
     print("caught %d / missed %d / skipped %d" % (sum(1 for o in out if o[1] == "caught"), sum(1 for o in out if o[1] == "MISSED"), sum(1 for o in out if o[1] == "skipped")))
     return 0
 
